@@ -118,6 +118,21 @@ func ftol(r float64, tol uint16, ins ...Sc) Sc {
 
 func roundHalfEven(x float64) float64 { return math.RoundToEven(x) }
 
+// cancelTol: tolerance (in ulps of the result v) of a sum of separately rounded terms: every term carries up to one
+// ulp of its own magnitude (product rounding, possible fused evaluation, order of summation). A bound beyond 4096
+// result-ulps makes the value indeterminate.
+func cancelTol(v float64, base uint16, terms ...float64) (uint16, bool) {
+	var bound float64
+	for _, t := range terms {
+		bound += ulp32(float32(t))
+	}
+	n := math.Ceil(bound/ulp32(float32(v))) + float64(base)
+	if n > 4096 || math.IsNaN(n) {
+		return 0, true
+	}
+	return uint16(n), false
+}
+
 // ---------- integer helpers ----------
 
 func addOvf32(a, b int32) bool { s := int64(a) + int64(b); return s != int64(int32(s)) }
